@@ -89,7 +89,7 @@ var c16RelTypes = []RelationshipType{RelationshipTypeParentOf, "par", "labeled_b
 
 var c16AliasCands = []c16ID{
 	{"channel", "1"}, {"channel", "10"}, {"channel", "11"}, {"channel", "01"}, {"channel", "101"},
-	{"chan", "1"}, {"chan", "10"}, {"group", "1"}, {"channel", "1:0"}, {"builtin", "root"}, {"group", "11"},
+	{"chan", "1"}, {"chan", "10"}, {"group", "1"}, {"channel", "1:0"}, {"builtin", "root"}, {"group", "11"}, {"xchannel", "1"},
 }
 
 var c16PlainCands = []c16ID{
@@ -100,8 +100,8 @@ var c16Kinds = func() []string {
 	w := []struct {
 		k string
 		n int
-	}{{"open", 6}, {"commit", 6}, {"abort", 3}, {"defres", 12}, {"defmany", 4}, {"delres", 7}, {"delmany", 2}, {"defrel", 24},
-		{"defrels", 6}, {"delrel", 5}, {"delout", 2}, {"delin", 2}, {"q", 14}, {"desc", 4}, {"has", 2}, {"reopen", 1}}
+	}{{"open", 6}, {"commit", 6}, {"abort", 3}, {"defres", 9}, {"defmany", 4}, {"delres", 5}, {"delmany", 1}, {"defrel", 26},
+		{"defrels", 6}, {"delrel", 5}, {"delout", 2}, {"delin", 2}, {"q", 18}, {"desc", 4}, {"has", 2}, {"reopen", 1}}
 	var out []string
 	for _, x := range w {
 		for i := 0; i < x.n; i++ {
@@ -124,9 +124,44 @@ func genC16(t *rapid.T) c16Case {
 	c.Overlap = rapid.IntRange(0, 3).Draw(t, "overlap") == 0
 	c.FinalCommit = rapid.Bool().Draw(t, "final_commit")
 	allowSelf := rapid.IntRange(0, 3).Draw(t, "self") == 0
-	id := func(l string) int { return rapid.IntRange(0, n-1).Draw(t, l) }
+	// hot: identifiers already used as relationship endpoints; later operations and
+	// queries prefer them so that histories pile up on the same few resources
+	var hot []int
+	lastTo := -1
+	// alive: which identifiers are probably defined (ignores transaction outcomes); keeps
+	// most relationship operations on existing resources
+	alive := make([]bool, n)
+	someAlive := func(l string, want bool) (int, bool) {
+		var s []int
+		for i, a := range alive {
+			if a == want {
+				s = append(s, i)
+			}
+		}
+		if len(s) == 0 {
+			return 0, false
+		}
+		return s[rapid.IntRange(0, len(s)-1).Draw(t, l)], true
+	}
+	id := func(l string) int {
+		p := rapid.IntRange(0, 9).Draw(t, l+"_hot")
+		if len(hot) > 0 && p < 5 {
+			return hot[rapid.IntRange(0, len(hot)-1).Draw(t, l+"_h")]
+		}
+		if p < 9 {
+			if i, ok := someAlive(l+"_alive", true); ok {
+				return i
+			}
+		}
+		return rapid.IntRange(0, n-1).Draw(t, l)
+	}
 	ids := func(l string, lo, hi int) []int {
-		return rapid.SliceOfN(rapid.IntRange(0, n-1), lo, hi).Draw(t, l)
+		k := rapid.IntRange(lo, hi).Draw(t, l+"_n")
+		out := make([]int, k)
+		for i := range out {
+			out[i] = id(l)
+		}
+		return out
 	}
 	rt := func() int {
 		if rapid.IntRange(0, 9).Draw(t, "rt_p") < 6 {
@@ -197,8 +232,11 @@ func genC16(t *rapid.T) c16Case {
 		return q
 	}
 	// prelude: most of the pool is defined up front so that histories are about edges
-	pre := c16Op{K: "defmany", B: rapid.SliceOfNDistinct(rapid.IntRange(0, n-1), 2, n, func(i int) int { return i }).Draw(t, "pre")}
+	pre := c16Op{K: "defmany", B: rapid.SliceOfNDistinct(rapid.IntRange(0, n-1), n-1, n, func(i int) int { return i }).Draw(t, "pre")}
 	c.Ops = append(c.Ops, pre)
+	for _, i := range pre.B {
+		alive[i] = true
+	}
 	nops := rapid.IntRange(3, 40).Draw(t, "nops")
 	for i := 0; i < nops; i++ {
 		k := rapid.SampledFrom(c16Kinds).Draw(t, "k")
@@ -249,13 +287,36 @@ func genC16(t *rapid.T) c16Case {
 		}
 		switch k {
 		case "defres", "delres":
-			c.Ops = append(c.Ops, c16Op{K: k, Tx: wslot(), A: id("a")})
+			a := id("a")
+			if k == "defres" && rapid.IntRange(0, 9).Draw(t, "revive") < 7 {
+				if i, ok := someAlive("dead", false); ok {
+					a = i
+				}
+			}
+			alive[a] = k == "defres"
+			c.Ops = append(c.Ops, c16Op{K: k, Tx: wslot(), A: a})
 		case "defmany", "delmany":
-			c.Ops = append(c.Ops, c16Op{K: k, Tx: wslot(), B: ids("b", 1, 3)})
+			bs := ids("b", 1, 3)
+			if k == "defmany" {
+				if i, ok := someAlive("dead", false); ok {
+					bs[0] = i
+				}
+			}
+			for _, b := range bs {
+				alive[b] = k == "defmany"
+			}
+			c.Ops = append(c.Ops, c16Op{K: k, Tx: wslot(), B: bs})
 		case "defrel", "delrel":
 			a, b := id("from"), id("to")
+			if k == "defrel" && lastTo >= 0 && rapid.IntRange(0, 3).Draw(t, "chain") == 0 {
+				a = lastTo // extend a chain
+			}
 			if a == b && !allowSelf && k == "defrel" {
 				b = (b + 1) % n
+			}
+			if k == "defrel" {
+				hot = append(hot, a, b)
+				lastTo = b
 			}
 			c.Ops = append(c.Ops, c16Op{K: k, Tx: wslot(), A: a, B: []int{b}, T: rt()})
 		case "defrels":
@@ -268,6 +329,7 @@ func genC16(t *rapid.T) c16Case {
 					}
 				}
 			}
+			hot = append(append(hot, a), bs...)
 			c.Ops = append(c.Ops, c16Op{K: k, Tx: wslot(), A: a, B: bs, T: rt()})
 		case "delout", "delin":
 			c.Ops = append(c.Ops, c16Op{K: k, Tx: wslot(), A: id("a"), T: rt()})
@@ -791,6 +853,17 @@ func (r *c16Run) checkQuery(v *c16View, q c16Query, sweep bool) *drv.Failure {
 		}
 		return nil
 	}
+	if err != nil && errors.Is(err, query.ErrNotFound) {
+		// a traversal that starts at a resource that does not exist may report so
+		for _, s := range starts {
+			if !r.hasRes(v, s) {
+				if !sweep {
+					r.st.Probe("query_missing_start_reported_not_found")
+				}
+				return nil
+			}
+		}
+	}
 	if err != nil {
 		return r.failf(v, "traversal-error", "hops"+hopSig, "%s failed: %v; the graph search over surviving resources gives %s", what, err, c16IDs(want))
 	}
@@ -1255,6 +1328,8 @@ func (r *c16Run) exec(op c16Op) *drv.Failure {
 			return r.failf(nil, "unexpected-error", "reopen", "ontology reopen failed: %v", err)
 		}
 		r.st.Probe("reopen")
+		// Open defines the root resource when it is missing
+		r.cres[RootID] = true
 		return r.afterChange("reopen", r.allIdx())
 	}
 	v := r.view(op.Tx)
@@ -1550,6 +1625,13 @@ func (r *c16Run) defineRels(v *c16View, w dagWriter, from ID, rt RelationshipTyp
 					if derr := w.DeleteRelationship(r.ctx, from, rt, to); derr != nil {
 						return r.failf(v, "unexpected-error", "repair", "DeleteRelationship failed: %v", derr)
 					}
+					if v != nil {
+						// the transaction's write batch now holds a delete for this key
+						v.rel[rel] = false
+					}
+				} else if many && v != nil {
+					// the one-to-many form has put the existing edge into the batch again
+					v.rel[rel] = true
 				}
 			}
 			return r.afterTxWrite(v, "defrel-repaired", touched)
@@ -1573,7 +1655,8 @@ func (r *c16Run) defineRels(v *c16View, w dagWriter, from ID, rt RelationshipTyp
 	added := 0
 	for _, to := range tos {
 		rel := Relationship{From: from, Type: rt, To: to}
-		if !r.hasRel(v, rel) {
+		existed := r.hasRel(v, rel)
+		if !existed {
 			added++
 			for _, other := range r.resList(v) {
 				if other != to && other != from && (strings.HasPrefix(other.String(), to.String())) && len(r.reach(v, other)) > 0 {
@@ -1581,7 +1664,12 @@ func (r *c16Run) defineRels(v *c16View, w dagWriter, from ID, rt RelationshipTyp
 				}
 			}
 		}
-		r.setRel(v, rel)
+		// "a no-op if it already exists": the single form writes nothing then; the
+		// one-to-many form puts every edge into the write batch again, which only
+		// overlapping writers can tell apart
+		if !existed || many {
+			r.setRel(v, rel)
+		}
 	}
 	if added == 0 {
 		r.st.Probe("defrel_noop_existing")
